@@ -5,12 +5,14 @@ package c08
 
 import (
 	"bytes"
+	"crypto/ed25519"
 	"crypto/sha256"
 	"fmt"
 	"reflect"
 	"testing"
 
 	"github.com/LiskHQ/lisk-engine/pkg/blockchain"
+	"github.com/LiskHQ/lisk-engine/pkg/codec"
 	"github.com/LiskHQ/lisk-engine/pkg/db"
 	"pgregory.net/rapid"
 
@@ -78,7 +80,131 @@ type storedBlock struct {
 	txIDs    [][]byte
 	txEncs   [][]byte
 	lenient  bool
+	created  string // non-empty: created locally with AggregateCommit == nil (the constructor used), never passed through NewBlock
 	nTx, nAs int
+}
+
+// Blocks CREATED on this node with a header whose AggregateCommit pointer is nil (NewBlockHeaderWithValues(..., nil, ...), a
+// struct literal + Init, a struct literal + Sign): Encode leaves field 14 out, the ID the creator computes is the hash of
+// THOSE bytes, and those bytes are what AddBlock stores. The decoder materialises the absent nested message as an empty
+// &AggregateCommit{}, so the RE-ENCODING of the loaded header contains field 14 and hashes to something else. DESIGN 1.7
+// keeps nil nested pointers out of the generic round-trip equality for that reason; the ID claim of the statement ("block
+// IDs are unchanged by store/load") is sound for them all the same: the block was saved under ID X, so every read path
+// must find it under X and hand it back with ID X (the unchanged getBlockHeader hashes the STORED bytes).
+var createdCtors = []string{"NewBlockHeaderWithValues(nil)", "literal+Init", "literal+Sign"}
+
+var storeChainID = []byte{0, 0, 0, 0}
+
+// createHeader turns the generated header value into one a creator builds: AggregateCommit nil, ID by the constructor.
+func createHeader(h *blockchain.BlockHeader, ctor string, seed []byte) (*blockchain.BlockHeader, error) {
+	h.AggregateCommit = nil
+	switch ctor {
+	case "NewBlockHeaderWithValues(nil)":
+		// (the constructor has no parameter for eventRoot / impliesMaxPrevotes: they stay at their zero values)
+		return blockchain.NewBlockHeaderWithValues(h.Version, h.Timestamp, h.Height, h.PreviousBlockID, h.AssetRoot, h.StateRoot, h.MaxHeightPrevoted,
+			h.MaxHeightGenerated, h.TransactionRoot, h.GeneratorAddress, h.ValidatorsHash, nil, h.Signature)
+	case "literal+Init":
+		h.Init()
+		return h, nil
+	case "literal+Sign":
+		h.Sign(storeChainID, ed25519.NewKeyFromSeed(seed))
+		return h, nil
+	}
+	return nil, fmt.Errorf("harness: unknown constructor %q", ctor)
+}
+
+// absentIsEmpty: the header with an all-default aggregate commit replaced by an absent one (the identification the statement
+// makes for values: "absent and empty fields identified").
+func absentIsEmpty(h *blockchain.BlockHeader) *blockchain.BlockHeader {
+	c := *h
+	if a := c.AggregateCommit; a != nil && a.Height == 0 && len(a.AggregationBits) == 0 && len(a.CertificateSignature) == 0 {
+		c.AggregateCommit = nil
+	}
+	return &c
+}
+
+// verifyCreated: every DataAccess read path returns the block saved under sb.id with that ID (by ID, by height, header only,
+// whole block, singly and in lists; `last` = it is the tip). Not demanded for these blocks: that the loaded header re-encodes
+// to the stored bytes or keeps its ID under Init() (absent vs empty nested message, see above) - the loaded value is compared
+// with absent == empty identified.
+func verifyCreated(t fataler, where string, da *blockchain.DataAccess, sb *storedBlock, last, warm bool) {
+	height := sb.blk.Header.Height
+	checkHeader := func(how string, h *blockchain.BlockHeader, err error) {
+		if err != nil || h == nil {
+			t.Fatalf("C08(d) %s %s: block created with AggregateCommit == nil (%s) and saved under ID %x (height %d) is not found: %v\nstored header bytes %x", where, how, sb.created, sb.id, height, err, sb.hdrEnc)
+		}
+		if !bytes.Equal(h.ID, sb.id) {
+			t.Fatalf("C08(d) %s %s: block ID changed by store/load: block created with AggregateCommit == nil (%s) was saved under %x and is loaded with ID %x (SHA-256 of the stored header bytes = %x, of the re-encoding of the loaded header = %x)\nstored header bytes %x",
+				where, how, sb.created, sb.id, []byte(h.ID), sha(sb.hdrEnc), sha(h.Encode()), sb.hdrEnc)
+		}
+		if enc := absentIsEmpty(h).Encode(); !bytes.Equal(enc, sb.hdrEnc) {
+			t.Fatalf("C08(d) %s %s: header changed by store/load (absent and empty aggregate commit identified):\nstored %x\nloaded %x", where, how, sb.hdrEnc, enc)
+		}
+	}
+	checkBlock := func(how string, b *blockchain.Block, err error) {
+		if err != nil || b == nil {
+			t.Fatalf("C08(d) %s %s: block created with AggregateCommit == nil (%s) and saved under ID %x (height %d) is not found: %v", where, how, sb.created, sb.id, height, err)
+		}
+		checkHeader(how+".Header", b.Header, nil)
+		norm := &blockchain.Block{Header: absentIsEmpty(b.Header), Transactions: b.Transactions, Assets: b.Assets}
+		if enc := norm.Encode(); !bytes.Equal(enc, sb.enc) {
+			t.Fatalf("C08(d) %s %s: block changed by store/load (absent and empty aggregate commit identified):\nstored %x\nloaded %x", where, how, sb.enc, enc)
+		}
+		if len(b.Transactions) != len(sb.txIDs) {
+			t.Fatalf("C08(d) %s %s: %d transactions loaded, %d stored", where, how, len(b.Transactions), len(sb.txIDs))
+		}
+		for j, tx := range b.Transactions {
+			if !bytes.Equal(tx.ID, sb.txIDs[j]) || !bytes.Equal(tx.Bytes(), sb.txEncs[j]) || tx.Size() != len(sb.txEncs[j]) {
+				t.Fatalf("C08(d) %s %s: transaction %d changed by store/load: id %x -> %x, bytes %x -> %x", where, how, j, sb.txIDs[j], []byte(tx.ID), sb.txEncs[j], tx.Bytes())
+			}
+		}
+	}
+	one := func(hs []*blockchain.BlockHeader, err error) (*blockchain.BlockHeader, error) {
+		if err == nil && len(hs) != 1 {
+			return nil, fmt.Errorf("%d headers returned, want 1", len(hs))
+		}
+		if err != nil {
+			return nil, err
+		}
+		return hs[0], nil
+	}
+	h, err := da.GetBlockHeader(sb.id)
+	checkHeader("GetBlockHeader", h, err)
+	h, err = one(da.GetBlockHeaders([][]byte{sb.id}))
+	checkHeader("GetBlockHeaders", h, err)
+	h, err = da.GetBlockHeaderByHeight(height)
+	checkHeader("GetBlockHeaderByHeight", h, err)
+	h, err = one(da.GetBlockHeadersByHeights([]uint32{height}))
+	checkHeader("GetBlockHeadersByHeights", h, err)
+	b, err := da.GetBlock(sb.id)
+	checkBlock("GetBlock", b, err)
+	b, err = da.GetBlockByHeight(height)
+	checkBlock("GetBlockByHeight", b, err)
+	bs, err := da.GetBlocksBetweenHeight(height, height)
+	if err == nil && len(bs) != 1 {
+		err = fmt.Errorf("%d blocks returned, want 1", len(bs))
+	}
+	if err != nil {
+		bs = []*blockchain.Block{nil}
+	}
+	checkBlock("GetBlocksBetweenHeight", bs[0], err)
+	if last {
+		h, err = da.GetLastBlockHeader()
+		checkHeader("GetLastBlockHeader", h, err)
+		if warm { // GetLastBlock answers from the block cache only: a DataAccess that never cached anything has no last block
+			b, err = da.GetLastBlock()
+			checkBlock("GetLastBlock", b, err)
+		}
+	}
+	for j, id := range sb.txIDs {
+		tx, err := da.GetTransaction(id)
+		if err != nil {
+			t.Fatalf("C08(d) %s GetTransaction(%x): %v", where, id, err)
+		}
+		if !bytes.Equal(tx.ID, id) || !bytes.Equal(tx.Bytes(), sb.txEncs[j]) {
+			t.Fatalf("C08(d) %s GetTransaction: transaction changed by store/load: id %x -> %x", where, id, []byte(tx.ID))
+		}
+	}
 }
 
 func sha(b []byte) []byte { s := sha256.Sum256(b); return s[:] }
@@ -92,10 +218,10 @@ func storeCase(t *rapid.T) {
 	nBlocks := rapid.IntRange(1, 4).Draw(t, "blocks")
 	base := rapid.SampledFrom([]uint32{0, 1, 2, 1000, 1<<32 - 5}).Draw(t, "baseHeight")
 	cacheSize := rapid.IntRange(1, 5).Draw(t, "blockCache")
-	chain := blockchain.NewChain(&blockchain.ChainConfig{ChainID: []byte{0, 0, 0, 0}, MaxTransactionsLength: 15 * 1024, MaxBlockCache: cacheSize, KeepEventsForHeights: -1})
+	chain := blockchain.NewChain(&blockchain.ChainConfig{ChainID: storeChainID, MaxTransactionsLength: 15 * 1024, MaxBlockCache: cacheSize, KeepEventsForHeights: -1})
 
 	var blocks []*storedBlock
-	anyLenient, totalTx := false, 0
+	anyLenient, anyCreated, totalTx := false, false, 0
 	for i := 0; i < nBlocks; i++ {
 		label := fmt.Sprintf("b%d", i)
 		gi := newGenInfo()
@@ -114,6 +240,37 @@ func storeCase(t *rapid.T) {
 		assets := make([]*blockchain.BlockAsset, nAs)
 		for j := range assets {
 			assets[j] = genStruct(t, assetType, fmt.Sprintf("%s.asset%d", label, j), 0, newGenInfo()).Interface().(*blockchain.BlockAsset)
+		}
+		// a fifth of the blocks is CREATED here with AggregateCommit == nil and stored as the very object (see createdCtors)
+		if rapid.IntRange(0, 4).Draw(t, label+"_created") == 0 {
+			ctor := rapid.SampledFrom(createdCtors).Draw(t, label+"_ctor")
+			seed := rapid.SliceOfN(rapid.Byte(), ed25519.SeedSize, ed25519.SeedSize).Draw(t, label+"_key")
+			header, err := createHeader(header, ctor, seed)
+			if err != nil {
+				t.Fatalf("C08(d) %s: %v", ctor, err)
+			}
+			if header.AggregateCommit != nil {
+				t.Fatalf("C08(d) harness: %s set an aggregate commit", ctor)
+			}
+			value := &blockchain.Block{Header: header, Transactions: txs, Assets: assets}
+			idByCtor := append([]byte{}, header.ID...)
+			value.Init() // what a creator does before the block is handed to the chain: transaction IDs, header ID
+			sb := &storedBlock{nTx: nTx, nAs: nAs, created: ctor, blk: value, raw: value.Encode(), enc: value.Encode(), hdrEnc: header.Encode(), id: append([]byte{}, header.ID...)}
+			if !bytes.Equal(sb.id, sha(sb.hdrEnc)) || !bytes.Equal(sb.id, idByCtor) {
+				t.Fatalf("C08(d) %s: block ID %x (after Block.Init %x) is not SHA-256 of the encoded header %x", ctor, idByCtor, sb.id, sb.hdrEnc)
+			}
+			for j, tx := range value.Transactions {
+				enc := tx.Encode()
+				if !bytes.Equal(tx.ID, sha(enc)) || tx.Size() != len(enc) {
+					t.Fatalf("C08(d) tx %d after Block.Init: ID %x size %d, want SHA-256/length of %x", j, []byte(tx.ID), tx.Size(), enc)
+				}
+				sb.txIDs = append(sb.txIDs, append([]byte{}, tx.ID...))
+				sb.txEncs = append(sb.txEncs, enc)
+			}
+			blocks = append(blocks, sb)
+			anyCreated = true
+			totalTx += nTx
+			continue
 		}
 		value := &blockchain.Block{Header: header, Transactions: txs, Assets: assets}
 		raw := value.Encode()
@@ -214,6 +371,11 @@ func storeCase(t *rapid.T) {
 	}
 
 	verify := func(where string, da *blockchain.DataAccess, sb *storedBlock) {
+		if sb.created != "" {
+			verifyCreated(t, where, da, sb, sb == blocks[len(blocks)-1], da == chain.DataAccess())
+			evid.R.Label("store:created_nil_aggregate_commit:"+sb.created, 1)
+			return
+		}
 		height := sb.blk.Header.Height
 		checkHeader := func(how string, h *blockchain.BlockHeader, err error) {
 			if err != nil {
@@ -300,7 +462,19 @@ func storeCase(t *rapid.T) {
 			t.Fatalf("C08(d) GetTempBlocks after RemoveBlock(saveTemp): %d blocks, err %v", len(temps), err)
 		}
 		tb := temps[0]
-		if !bytes.Equal(tb.Header.ID, last.id) || !bytes.Equal(tb.Encode(), last.enc) {
+		if last.created != "" {
+			// A temp block is kept as Block.Encode() and comes back through NewBlock, i.e. with the ID every RECEIVER of those bytes
+			// computes: the hash of the re-encoded header (mechanism anchor of the property). For a header created with a nil
+			// aggregate commit that re-encoding has field 14 and the creator's encoding has not - the encode-absent / decode-empty
+			// asymmetry DESIGN 1.7 keeps out of the domain; no engine caller creates such a header (generator: GetAggregateCommit is
+			// never nil; peers: decoded). Unlike the header table, which is keyed by the ID the block was saved under, nothing is
+			// looked up by a temp block's ID. Recorded, not demanded; the value itself (absent == empty) and the transactions are.
+			norm := &blockchain.Block{Header: absentIsEmpty(tb.Header), Transactions: tb.Transactions, Assets: tb.Assets}
+			if !bytes.Equal(norm.Encode(), last.enc) {
+				t.Fatalf("C08(d) temp block (created with AggregateCommit == nil) changed by store/load (absent and empty aggregate commit identified):\nstored %x\nloaded %x", last.enc, norm.Encode())
+			}
+			evid.R.Label("store:created_tip_as_temp_block:id_"+map[bool]string{true: "kept", false: "is_hash_of_reencoding(not_demanded)"}[bytes.Equal(tb.Header.ID, last.id)], 1)
+		} else if !bytes.Equal(tb.Header.ID, last.id) || !bytes.Equal(tb.Encode(), last.enc) {
 			t.Fatalf("C08(d) temp block changed by store/load: id %x -> %x\nstored %x\nloaded %x", last.id, []byte(tb.Header.ID), last.enc, tb.Encode())
 		}
 		for j, tx := range tb.Transactions {
@@ -315,6 +489,9 @@ func storeCase(t *rapid.T) {
 	if anyLenient {
 		labels = append(labels, "store:lenient_header")
 	}
+	if anyCreated {
+		labels = append(labels, "store:created_with_nil_aggregate_commit")
+	}
 	if totalTx > 0 {
 		labels = append(labels, "store:with_transactions")
 	}
@@ -326,8 +503,8 @@ func storeCase(t *rapid.T) {
 		key.Write(sb.raw)
 		key.WriteByte('|')
 	}
-	// non-trivial: at least one transaction and one asset stored, or a lenient-form header
-	nt := anyLenient
+	// non-trivial: at least one transaction and one asset stored, or a lenient-form header, or a block created with a nil aggregate commit
+	nt := anyLenient || anyCreated
 	for _, sb := range blocks {
 		if sb.nTx > 0 && sb.nAs > 0 {
 			nt = true
@@ -343,3 +520,58 @@ func storeCase(t *rapid.T) {
 }
 
 func TestStoreLoad(t *testing.T) { checkScaled(t, 0.02, storeCase) }
+
+// Fixed case (seed independent, every tier) for the seeded change "getBlockHeader computes the ID of a loaded header by
+// Decode + Init": three consecutive blocks created with AggregateCommit == nil by the three constructors, stored as the very
+// objects in a chain whose block cache holds one block (the older ones are cache misses even on the chain's own access),
+// then read through every DataAccess path, cold and warm.
+func TestRegressStoreLoadNilAggregateCommit(t *testing.T) {
+	database, err := db.NewInMemoryDB()
+	if err != nil {
+		t.Fatalf("harness: in-memory db: %v", err)
+	}
+	defer database.Close()
+	chain := blockchain.NewChain(&blockchain.ChainConfig{ChainID: storeChainID, MaxTransactionsLength: 15 * 1024, MaxBlockCache: 1, KeepEventsForHeights: -1})
+	fill := func(n int, b byte) []byte { return bytes.Repeat([]byte{b}, n) }
+	var blocks []*storedBlock
+	prev := fill(32, 0)
+	for i, ctor := range createdCtors {
+		lit := &blockchain.BlockHeader{Version: 2, Timestamp: 1000 + 10*uint32(i), Height: 7 + uint32(i), PreviousBlockID: prev, GeneratorAddress: fill(20, 0x11),
+			TransactionRoot: fill(32, 0x22), AssetRoot: fill(32, 0x33), EventRoot: fill(32, 0x44), StateRoot: fill(32, 0x55), MaxHeightPrevoted: 3, MaxHeightGenerated: 2,
+			ImpliesMaxPrevotes: i == 1, ValidatorsHash: fill(32, 0x66), Signature: fill(64, 0x77)}
+		header, err := createHeader(lit, ctor, fill(ed25519.SeedSize, byte(i+1)))
+		if err != nil || header.AggregateCommit != nil {
+			t.Fatalf("harness: %s: %v", ctor, err)
+		}
+		tx := &blockchain.Transaction{Module: "token", Command: "transfer", Nonce: uint64(i), Fee: 1000, SenderPublicKey: fill(32, 0x88), Params: []byte{1, 2, 3}, Signatures: []codec.Hex{fill(64, 0x99)}}
+		value := &blockchain.Block{Header: header, Transactions: []*blockchain.Transaction{tx}, Assets: []*blockchain.BlockAsset{{Module: "mod", Data: []byte{byte(i)}}}}
+		value.Init()
+		sb := &storedBlock{nTx: 1, nAs: 1, created: ctor, blk: value, raw: value.Encode(), enc: value.Encode(), hdrEnc: header.Encode(), id: append([]byte{}, header.ID...),
+			txIDs: [][]byte{append([]byte{}, tx.ID...)}, txEncs: [][]byte{tx.Encode()}}
+		if !bytes.Equal(sb.id, sha(sb.hdrEnc)) {
+			t.Fatalf("C08(d) %s: block ID %x is not SHA-256 of the encoded header %x", ctor, sb.id, sb.hdrEnc)
+		}
+		if bytes.Contains(sb.hdrEnc, []byte{0x72, 0x06, 0x08, 0x00, 0x12, 0x00, 0x1a, 0x00}) {
+			t.Fatalf("harness: the encoding of a header with a nil aggregate commit contains field 14: %x", sb.hdrEnc)
+		}
+		blocks = append(blocks, sb)
+		prev = sb.id
+	}
+	chain.Init(blocks[0].blk, database)
+	for _, sb := range blocks {
+		if err := chain.AddBlock(database.NewBatch(), sb.blk, nil, 0, false); err != nil {
+			t.Fatalf("C08(d) harness: AddBlock(height %d): %v", sb.blk.Header.Height, err)
+		}
+		if !bytes.Equal(sb.blk.Header.ID, sb.id) || sb.blk.Header.AggregateCommit != nil || !bytes.Equal(sb.blk.Encode(), sb.enc) {
+			t.Fatalf("C08(d) AddBlock modified the block: id %x -> %x", sb.id, []byte(sb.blk.Header.ID))
+		}
+	}
+	for i, sb := range blocks {
+		last := i == len(blocks)-1
+		verifyCreated(t, "cold DataAccess", blockchain.NewDataAccess(database, 1, 1), sb, last, false)
+		verifyCreated(t, "warm DataAccess (cache of one block)", chain.DataAccess(), sb, last, true)
+		evid.R.Case(fmt.Sprintf("store-fixed-created|%x", sb.raw), true, func() any {
+			return map[string]any{"part": "d", "fixed": "created with AggregateCommit == nil", "constructor": sb.created, "id": fmt.Sprintf("%x", sb.id), "header": fmt.Sprintf("%x", sb.hdrEnc)}
+		}, "store_fixed_created", "store:created_nil_aggregate_commit:"+sb.created)
+	}
+}
